@@ -256,6 +256,28 @@ pub enum ErrSpec {
     Io(String),
     /// a custom error whose source is another boxed error
     Nested(String),
+    /// a foreign error whose `source()` is a SignatureError of this kind (the outer error is what the provider said)
+    NestedSig(Kind, String),
+    /// `SignatureError::InternalServiceError` wrapping a SignatureError of this kind: already a SignatureError, passed on as it is
+    WrappedSig(Kind, String),
+    /// the crate's own `KeyTooLongError` (a provider doing `KSecretKey::from_str(s)?`)
+    KeyTooLong,
+    /// `SignatureError::SignatureDoesNotMatch(None)`
+    SigNone,
+    /// a bare `std::io::Error` of the n-th kind of a fixed list (NotFound, PermissionDenied, TimedOut, …) or from a raw OS error
+    IoKind(u8, String),
+}
+
+/// The io::Error behind `ErrSpec::IoKind`.
+pub fn io_error_of(n: u8, m: &str) -> std::io::Error {
+    use std::io::ErrorKind as K;
+    const KINDS: [K; 10] = [K::NotFound, K::PermissionDenied, K::TimedOut, K::ConnectionRefused, K::UnexpectedEof, K::InvalidData, K::Interrupted, K::WouldBlock, K::BrokenPipe, K::Other];
+    match n {
+        0..=9 => std::io::Error::new(KINDS[n as usize], m.to_string()),
+        10 => std::io::Error::from_raw_os_error(2),
+        11 => std::io::Error::from_raw_os_error(13),
+        _ => std::io::Error::from_raw_os_error(110),
+    }
 }
 
 impl ErrSpec {
@@ -266,6 +288,11 @@ impl ErrSpec {
             ErrSpec::Custom(m) => J::obj().set("t", J::s("custom")).set("msg", J::s(m.clone())),
             ErrSpec::Io(m) => J::obj().set("t", J::s("io")).set("msg", J::s(m.clone())),
             ErrSpec::Nested(m) => J::obj().set("t", J::s("nested")).set("msg", J::s(m.clone())),
+            ErrSpec::NestedSig(k, m) => J::obj().set("t", J::s("nested-sig")).set("kind", J::i(*k as u8)).set("msg", J::s(m.clone())),
+            ErrSpec::WrappedSig(k, m) => J::obj().set("t", J::s("wrapped-sig")).set("kind", J::i(*k as u8)).set("msg", J::s(m.clone())),
+            ErrSpec::KeyTooLong => J::obj().set("t", J::s("key-too-long")).set("msg", J::s("")),
+            ErrSpec::SigNone => J::obj().set("t", J::s("sig-none")).set("msg", J::s("")),
+            ErrSpec::IoKind(n, m) => J::obj().set("t", J::s("io-kind")).set("kind", J::i(*n)).set("msg", J::s(m.clone())),
         }
     }
 
@@ -277,6 +304,11 @@ impl ErrSpec {
             "str" => ErrSpec::Str(m),
             "custom" => ErrSpec::Custom(m),
             "io" => ErrSpec::Io(m),
+            "nested-sig" => ErrSpec::NestedSig(Kind::from_index(j.get("kind").and_then(|x| x.int()).ok_or("kind")? as u8), m),
+            "wrapped-sig" => ErrSpec::WrappedSig(Kind::from_index(j.get("kind").and_then(|x| x.int()).ok_or("kind")? as u8), m),
+            "key-too-long" => ErrSpec::KeyTooLong,
+            "sig-none" => ErrSpec::SigNone,
+            "io-kind" => ErrSpec::IoKind(j.get("kind").and_then(|x| x.int()).ok_or("kind")? as u8, m),
             _ => ErrSpec::Nested(m),
         })
     }
@@ -288,6 +320,13 @@ impl ErrSpec {
             ErrSpec::Sig(k, m) => (*k, m.clone()),
             ErrSpec::Str(m) | ErrSpec::Custom(m) | ErrSpec::Io(m) => (Kind::InternalServiceError, m.clone()),
             ErrSpec::Nested(m) => (Kind::InternalServiceError, m.clone()),
+            // the outer error is what the provider said: a foreign error (500) whatever its source() is
+            ErrSpec::NestedSig(_, m) => (Kind::InternalServiceError, m.clone()),
+            // already a SignatureError of kind InternalServiceError: unchanged (its text is the inner error's text)
+            ErrSpec::WrappedSig(_, m) => (Kind::InternalServiceError, m.clone()),
+            ErrSpec::KeyTooLong => (Kind::InternalServiceError, crate::exec::key_too_long_text()),
+            ErrSpec::SigNone => (Kind::SignatureDoesNotMatch, String::new()),
+            ErrSpec::IoKind(n, m) => (Kind::InternalServiceError, io_error_of(*n, m).to_string()),
         }
     }
 }
